@@ -114,7 +114,7 @@ func vpH_C07_T_stale_events() {
 	case 2:
 		w.push(&vpEntry{k: "g", v: nil, rev: oldRev + 1}) // late deletion marker of the previous owner's shutdown
 	}
-	time.Sleep(100 * time.Millisecond)
+	time.Sleep(time.Millisecond) // the event has been handled; the next heartbeat has not happened yet
 	vpQuiesce()
 	if s.e.IsLeader() && s.st.live() && s.st.writer == "a" {
 		vpAssert("C18.leader-snapshot:revision", s.e.Status().Revision == s.st.lastSeq)
